@@ -199,6 +199,15 @@ def step (st : St) (op res : String) : St × List String :=
         (if get "refill" == "ok" || get "refill" == "-" then [] else ["FAIL C06 large pool: a freed block was not handed out again (or the pool was not full afterwards)", "FAIL C05 large pool: a freed block was not handed out again (or the pool was not full afterwards)"])
       (st, "br:acap6" :: (if fails.isEmpty then [] else "DIVERGE dom model=exact-capacity" :: fails))
     | _, _ => (st, ["DIVERGE drift unparsed-op"])
+  | "achurn" :: _, .none => (st, ["br:skipped.no-allocator"])
+  | "achurn" :: _, _ =>
+    -- k callers at once, each taking a block and freeing its own (harness/alloc.go): in every one-at-a-time order no block is
+    -- handed out while another caller holds it (C04) and every Free of an outstanding block succeeds (C06); all is freed again
+    if res == "ok" then (st, ["br:achurn"])
+    else (st, ["br:achurn", "DIVERGE dom model=no-block-handed-out-twice",
+               s!"FAIL C04 callers allocating and freeing at once: {res}",
+               s!"FAIL C16 callers allocating and freeing at once (no one-at-a-time order does that): {res}",
+               s!"FAIL C06 callers allocating and freeing at once: {res}"])
   | "afrace" :: _, .none => (st, ["br:skipped.no-allocator"])
   | "afrace" :: _, _ =>
     -- one block handed out, then freed by k callers at once: exactly one Free succeeds (C06 for every schedule)
